@@ -588,3 +588,20 @@ pub fn lzma2_parse_lzma_packed_field() {
     forget(accum);
     forget(dec);
 }
+
+//@ harness props=C14 tier=quick unwind=8 mem_gb=4 timeout=600 native=no
+//@ bound: Lzma2Decoder::reset on a decoder whose properties were changed by a previous stream: reset_state(lc=0,lp=0,pb=0) is called once
+#[cfg_attr(kani, kani::proof)]
+#[cfg_attr(kani, kani::stub(std::fmt::format, crate::verif_common::stub_format))]
+#[cfg_attr(kani, kani::stub(std::io::Error::is_interrupted, crate::verif_common::stub_not_interrupted))]
+#[cfg_attr(kani, kani::stub(crate::decode::lzma::DecoderState::reset_state, crate::decode::lzma2::verif_h::observing_reset_state))]
+pub fn raw_lzma2_decoder_reset() {
+    let mut t = Tape::<16>::new();
+    let mut dec = mk_decoder([script(1, K_LIT); 4]);
+    dec.lzma_state.lzma_props = LzmaProperties { lc: (t.u8() % 5) as u32, lp: 0, pb: (t.u8() % 5) as u32 };
+    dec.reset();
+    vassert!(crate::decode::lzma::verif_h::reset_count(&dec.lzma_state) == 1, "raw LZMA2 decoder: reset resets the decoder state");
+    vassert!(dec.lzma_state.lzma_props.lc == 0 && dec.lzma_state.lzma_props.lp == 0 && dec.lzma_state.lzma_props.pb == 0, "raw LZMA2 decoder: reset returns to lc=0 lp=0 pb=0 like a new decoder");
+    vcover!(true, "end_reached");
+    forget(dec);
+}
